@@ -444,6 +444,15 @@ func (st *State) covered(ms *modSet, addr string) string {
 		switch en.kind {
 		case "all":
 			return "true"
+		case "fieldall":
+			if strings.HasPrefix(addr, "(sub ") {
+				a := splitTop(addr[5 : len(addr)-1])
+				if a[1] == en.name {
+					return "true"
+				}
+			} else {
+				alts = append(alts, and(app("(_ is sub)", addr), eq(app("sub_f", addr), en.name)))
+			}
 		case "cell":
 			alts = append(alts, eq(addr, en.ref))
 			// a struct-typed cell covers its fields
@@ -491,6 +500,11 @@ func (st *State) frameCheckMap(ins ssa.Instruction, m string) {
 }
 
 func (st *State) frameCheckEntry(ins ssa.Instruction, en modEntry, name string) {
+	if en.kind == "ghost" && en.name == "ghost_held" {
+		// lock state: callees are assumed to release what they acquire (not checked);
+		// it is exempt from frames so that locking does not have to be declared everywhere
+		return
+	}
 	for _, ms := range st.modsets {
 		var alts []string
 		for _, e2 := range ms.entries {
@@ -506,6 +520,10 @@ func (st *State) frameCheckEntry(ins ssa.Instruction, en modEntry, name string) 
 				// ghost variables are not part of "everything": they must be named
 			case e2.kind == "all":
 				alts = append(alts, c2)
+			case e2.kind == "fieldall" && en.kind == "fieldall":
+				if e2.name == en.name {
+					alts = append(alts, c2)
+				}
 			case en.kind == "cell":
 			case e2.kind == en.kind && en.kind == "ghost":
 				if e2.name == en.name {
@@ -519,7 +537,7 @@ func (st *State) frameCheckEntry(ins ssa.Instruction, en modEntry, name string) 
 		switch en.kind {
 		case "cell":
 			g = st.covered(ms, en.ref)
-		case "all":
+		case "all", "fieldall":
 			g = or(alts...)
 		case "ghost":
 			g = or(alts...)
@@ -551,6 +569,15 @@ func (st *State) havocModset(ms *modSet) {
 		case "all":
 			st.havocAll("frame: everything")
 			return
+		case "fieldall":
+			// coarse: every cell of that sort may have changed
+			s := te.SortOf(en.T)
+			name := memName(s)
+			if n, ok := immArray("(sub (mkref 0) "+en.name+")", s); ok {
+				name = n
+			}
+			_ = st.heapGet(st.heap, name, ArrSort(SRef, s))
+			st.heap.m[name] = st.fresh("hv_"+name, ArrSort(SRef, s))
 		case "cell":
 			st.havocCell(en.ref, en.T)
 		case "fields":
